@@ -1,6 +1,28 @@
 //! Line protocol: printing and parsing numbers and geometries (see DESIGN.md §2.2).
 use geo_types::*;
 
+thread_local! {
+    /// `NZ <k>` line prefix: (k, running count of zero coordinate components parsed so far)
+    pub static NEGZERO: std::cell::Cell<Option<(u64, u64)>> = std::cell::Cell::new(None);
+}
+/// Under an `NZ <k>` prefix a zero coordinate component is handed to the implementation as `-0.0` or `+0.0`
+/// (decided by a hash of k and its running index). The exact model decodes both spellings to the rational 0,
+/// so every property must be insensitive to the choice.
+fn nz(v: f64) -> f64 {
+    if v != 0.0 {
+        return v;
+    }
+    NEGZERO.with(|c| match c.get() {
+        None => v,
+        Some((k, n)) => {
+            c.set(Some((k, n + 1)));
+            let mut h = k ^ n.wrapping_mul(0x9E3779B97F4A7C15);
+            h ^= h >> 31; h = h.wrapping_mul(0xBF58476D1CE4E5B9); h ^= h >> 29;
+            if h & 1 == 1 { -0.0 } else { 0.0 }
+        }
+    })
+}
+
 pub fn num(v: f64) -> String {
     if v.is_finite() && v == v.trunc() && v.abs() < 9007199254740992.0 && !(v == 0.0 && v.is_sign_negative()) {
         format!("{}", v as i64)
@@ -112,8 +134,8 @@ impl<'a> Toks<'a> {
         }
     }
     pub fn coord(&mut self) -> R<Coord<f64>> {
-        let x = self.num()?;
-        let y = self.num()?;
+        let x = nz(self.num()?);
+        let y = nz(self.num()?);
         Ok(Coord { x, y })
     }
     pub fn coords(&mut self) -> R<Vec<Coord<f64>>> {
